@@ -368,9 +368,13 @@ def sig_hit(mod: Any, kfs: list[KnownFinding], case: Any, f: Failure) -> str | N
     matches the whole case and the property module allows it (DECOMPOSE_KEY = name of the document text in the case), the
     document is split into independent top-level chunks: the failure counts as known if at least one chunk fails on its
     own and every failing chunk matches a signature (several recorded findings in one document)."""
+    return _sig_hit_variants(mod, kfs, case, f, 0)
+
+
+def _sig_hit_variants(mod: Any, kfs: list[KnownFinding], case: Any, f: Failure, depth: int) -> str | None:
     hit = _sig_hit_chunks(mod, kfs, case, f)
     variants = getattr(mod, "OPTION_VARIANTS", None)
-    if hit or variants is None:
+    if hit or variants is None or depth >= 3:
         return hit
     # Two recorded findings in ONE paragraph, each needing a different option (say, smart quotes and semantic breaks):
     # with either option off the case must pass or show a recorded finding, and at least one variant must show one.
@@ -384,7 +388,7 @@ def sig_hit(mod: Any, kfs: list[KnownFinding], case: Any, f: Failure) -> str | N
             return None
         if f2 is None:
             continue
-        h2 = _sig_hit_chunks(mod, kfs, sub, f2)
+        h2 = _sig_hit_variants(mod, kfs, sub, f2, depth + 1)  # (a variant may itself still hold two findings)
         if h2 is None:
             return None
         slugs.append(h2)
